@@ -22,6 +22,14 @@ def case_repr(c):
     return "u8"
 
 
+def hook_available():
+    """the guarded pipeline trace hook (cargo feature verif-trace) exists in the tree under test"""
+    try:
+        return "verif-trace" in open(os.path.join(REPO, "Cargo.toml")).read()
+    except OSError:
+        return False
+
+
 def write_ws(root, name, chunks, derive):
     """a workspace of library crates; chunks: list of lists of (case_id, lines). returns {crate: [(id, a, b)]}"""
     ws = os.path.join(root, name)
@@ -35,7 +43,8 @@ def write_ws(root, name, chunks, derive):
         cn = f"{name}{k:02d}"
         members.append(cn)
         os.makedirs(os.path.join(ws, cn, "src"))
-        dep = 'enum-tools = { path = "%s" }\n' % REPO if derive else ""
+        feat = ', features = ["verif-trace"]' if derive and hook_available() else ""
+        dep = 'enum-tools = { path = "%s"%s }\n' % (REPO, feat) if derive else ""
         open(os.path.join(ws, cn, "Cargo.toml"), "w").write(
             f"[package]\nname = \"{cn}\"\nversion = \"0.0.0\"\nedition = \"2021\"\n[dependencies]\n{dep}")
         src = ["#![allow(warnings)]", "#![recursion_limit = \"1024\"]"]
@@ -59,13 +68,13 @@ def write_ws(root, name, chunks, derive):
     return ws, spans
 
 
-def peel(ws, spans, what):
+def peel(ws, spans, what, trace_env=None):
     """build; every case with an error is 'rejected' and removed; repeat until the rest builds.
     returns {case_id: first error message}"""
     rejected = {}
     for rnd in range(12):
         t0 = time.time()
-        rc, msgs, err = run_rt.cargo_json(ws, ["--workspace", "--lib"])
+        rc, msgs, err = run_rt.cargo_json(ws, ["--workspace", "--lib"], extra_env=trace_env if rnd == 0 else None)
         errs = run_rt.errors_of(msgs)
         log(f"{what} round {rnd}: rc={rc} errors={len(errs)} {time.time() - t0:.1f}s")
         if rc == 0:
@@ -101,6 +110,26 @@ def peel(ws, spans, what):
     raise ToolError(f"{what}: build did not converge")
 
 
+def pipeline_drift(ptrace, max_records=30000):
+    """validate the hook's records against spec/Resolve.tla (spec/TracePipeline.tla). Drift is a note, never a verdict."""
+    if not os.path.exists(ptrace):
+        return {"records": 0, "drift": 0, "hook": hook_available()}
+    lines = [l for l in open(ptrace).read().split("\n") if l.startswith('{"ev":"resolve"')]
+    # identical records (same pre-state and shape) need to be judged once
+    uniq = list(dict.fromkeys(re.sub(r'"enum":"[^"]*",', "", l) for l in lines))[:max_records]
+    shards, k = [], 0
+    for i in range(0, len(uniq), 4000):
+        path = f"{ptrace}.{k}"
+        k += 1
+        open(path, "w").write("\n".join(uniq[i:i + 4000]) + "\n")
+        shards.append({"trace": path, "events": len(uniq[i:i + 4000])})
+    drifts, st = judge.judge_shards(shards, module="TracePipeline", log=log, tag="DRIFT") if shards else ([], {"states": 0, "transitions": 0})
+    for d in drifts[:5]:
+        log("NOTE model-drift: Resolve.tla does not describe the resolution of " + json.dumps(d.get("rec", {}).get("pre"))[:300])
+    return {"records": len(lines), "distinct": len(uniq), "drift": len(drifts), "hook": True, "tlc": st,
+            "examples": [d.get("rec") for d in drifts[:3]]}
+
+
 def compute(tier, seed):
     t0 = time.time()
     allcases, stim = [], {"states": 0, "transitions": 0}
@@ -124,8 +153,13 @@ def compute(tier, seed):
         chunks_c[i % NCRATES].append((c["id"], render_verdict.render(c, c["_repr"], derive=False)))
     wsd, spd = write_ws(root, "vd", chunks_d, True)
     wsc, spc = write_ws(root, "vc", chunks_c, False)
-    rej = peel(wsd, spd, "derive build")
+    # the guarded hook in the derive records, per invocation, what the dependency resolution decided
+    ptrace = os.path.join(root, "pipeline.ndjson")
+    if os.path.exists(ptrace):
+        os.remove(ptrace)
+    rej = peel(wsd, spd, "derive build", trace_env={"ENUM_TOOLS_VERIF_TRACE": ptrace} if hook_available() else None)
     ctl = peel(wsc, spc, "control build")
+    drift = pipeline_drift(ptrace)
     trace = os.path.join(root, "verdict.ndjson")
     shards, n, k = [], 0, 0
     f = None
@@ -161,7 +195,7 @@ def compute(tier, seed):
         samples[p] = [{"case": c["id"], "note": c["note"], "rust": render_verdict.render(c, c["_repr"], True)[:12],
                        "accepted": c["id"] not in rej} for c in (cs[:1] + cs[len(cs) // 2:len(cs) // 2 + 1] + cs[-1:])]
     return {"tier": tier, "seed": seed, "violations": out, "coverage": dict(cov), "notes": notes, "samples": samples,
-            "rejected": len(rej), "control_failed": len(ctl), "n_cases": len(allcases),
+            "rejected": len(rej), "control_failed": len(ctl), "n_cases": len(allcases), "pipeline_trace": drift,
             "tlc": {"stimuli": stim, "judge": jst}}
 
 
